@@ -583,7 +583,10 @@ impl Server {
                     ),
                 )
             })
-            .sorted_by(|a, b| a.uri.cmp(&b.uri))
+            // in a fixed order: by file, then by line
+            .sorted_by(|a, b| {
+                (a.uri.as_str(), a.range.start.line).cmp(&(b.uri.as_str(), b.range.start.line))
+            })
             .collect_vec()
     }
 
